@@ -59,4 +59,11 @@ theorem sameTarget_updown (pre post : P) (x : String) :
 theorem resolve_sameTarget {a b : P} (h : SameTarget a b) (doc : P) : resolve doc a = resolve doc b := by
   rw [resolve_eq_foldl, resolve_eq_foldl, h]
 
+/-- `resolve_relative_path` normalises its base: resolving against `normalize_path(doc)` or against `doc` is the same
+    (needs only that `normalize_path` is idempotent, passed in so that this file stays independent of `Props/C20.lean`) -/
+theorem resolve_normalize_base (hidem : ∀ p : P, normalize (normalize p) = normalize p) (doc rel : P) :
+    resolve (normalize doc) rel = resolve doc rel := by
+  unfold resolve
+  rw [hidem]
+
 end NitroVerif.Paths
